@@ -40,18 +40,18 @@ def build_manager(a):
     pipe = a.get("pipe", "single")
     if pipe == "single":
         g.set_single_u_tube_pipe(inner_diameter=0.03404, outer_diameter=0.04216, shank_spacing=0.01856, roughness=1.0e-6,
-                                 conductivity=a.get("k_pipe", 0.4), rho_cp=1542000.0)
+                                 conductivity=a.get("k_pipe", 0.4), rho_cp=a.get("rho_cp_pipe", 1542000.0))
     elif pipe == "double_parallel":
         g.set_double_u_tube_pipe_parallel(inner_diameter=0.03404, outer_diameter=0.04216, shank_spacing=0.01856, roughness=1.0e-6,
-                                          conductivity=0.4, rho_cp=1542000.0)
+                                          conductivity=0.4, rho_cp=a.get("rho_cp_pipe", 1542000.0))
     elif pipe == "double_series":
         g.set_double_u_tube_pipe_series(inner_diameter=0.03404, outer_diameter=0.04216, shank_spacing=0.01856, roughness=1.0e-6,
-                                        conductivity=0.4, rho_cp=1542000.0)
+                                        conductivity=0.4, rho_cp=a.get("rho_cp_pipe", 1542000.0))
     else:
         g.set_coaxial_pipe(inner_pipe_d_in=0.0442, inner_pipe_d_out=0.050, outer_pipe_d_in=0.0974, outer_pipe_d_out=0.11,
-                           roughness=1.0e-6, conductivity_inner=0.4, conductivity_outer=0.4, rho_cp=1542000.0)
+                           roughness=1.0e-6, conductivity_inner=0.4, conductivity_outer=0.4, rho_cp=a.get("rho_cp_pipe", 1542000.0))
     g.set_soil(conductivity=a.get("k_soil", 2.0), rho_cp=a.get("rho_cp_soil", 2343493.0), undisturbed_temp=a.get("ugt", 18.3))
-    g.set_grout(conductivity=a.get("k_grout", 1.0), rho_cp=3901000.0)
+    g.set_grout(conductivity=a.get("k_grout", 1.0), rho_cp=a.get("rho_cp_grout", 3901000.0))
     g.set_fluid()
     g.set_borehole(height=a.get("nominal_height", 96.0), buried_depth=2.0, diameter=0.140)
     g.set_simulation_parameters(num_months=a.get("months", 24), max_eft=35, min_eft=5, max_height=a.get("hmax", 135.0), min_height=a.get("hmin", 60.0),
@@ -153,10 +153,15 @@ def _hybrid_real_check(a):
     from ghedesigner.enums import FlowConfigType, TimestepType
     from ghedesigner.search_routines import Bisection1D
 
-    g = build_manager({**a, "length": 12.0})
-    d = g._design
     n = a.get("n", 4)
     coords = [(float(i % 2) * 6.0, float(i // 2) * 6.0) for i in range(n)]
+    # history: the same field, loads, height, soil and conductivities - hence the same characteristic time and borehole resistance - but other heat capacities of grout and
+    # pipe (another short-time response) is processed first in this interpreter
+    dd = build_manager({**a, "length": 12.0, "rho_cp_grout": 1.9e6, "rho_cp_pipe": 2.6e6})._design
+    Bisection1D([coords], ["f"], a.get("flow", 0.3), dd.borehole, dd.bhe_type, dd.fluid, dd.pipe, dd.grout, dd.soil, dd.sim_params,
+                dd.hourly_extraction_ground_loads, method=TimestepType.HYBRID, flow_type=FlowConfigType.BOREHOLE, search=False)
+    g = build_manager({**a, "length": 12.0})
+    d = g._design
     s = Bisection1D([coords], ["f"], a.get("flow", 0.3), d.borehole, d.bhe_type, d.fluid, d.pipe, d.grout, d.soil, d.sim_params,
                     d.hourly_extraction_ground_loads, method=TimestepType.HYBRID, flow_type=FlowConfigType.BOREHOLE, search=False)
     hl = s.ghe.hybrid_load
@@ -233,7 +238,7 @@ def _hybrid_real_gen(rng):
 
 
 native("ghedesigner.ground_loads:HybridLoad.find_peak_durations", _hybrid_real_check, _hybrid_real_gen, None,
-       bound="real HybridLoad objects: 4 profile shapes x 3 magnitudes x spikes x 3 pipe types x soil/grout conductivities; peaks, two-day windows, durations in (0,48], duration definition recomputed independently")
+       bound="real HybridLoad objects: 4 profile shapes x 3 magnitudes x spikes x 3 pipe types x soil/grout conductivities; peaks, two-day windows, durations in (0,48], duration definition recomputed independently; a sibling borehole with other grout / pipe heat capacities is processed first in the same interpreter")
 
 
 # ---- real GHE objects: history independence of simulate (C13) and the corollaries of the superposition formula (C09) -----
